@@ -138,7 +138,7 @@ def match_known(known, viol):
         if ent.get("property") != viol["property"]:
             continue
         m = ent.get("match", {})
-        if m.get("kind") != viol["kind"]:
+        if "kind" in m and m["kind"] != viol["kind"]:
             continue
         ok = True
         for k, v in m.items():
